@@ -137,7 +137,7 @@ impl ConfigS {
 }
 // Storage::save_corrupted_blob: rename into the corrupted-blobs directory (+ remove the index file)
 #[verifier::external_body]
-pub fn save_corrupted_blob(p: &PathS, dir: ()) -> (r: Result<(), AnyErr>) { unimplemented!() }
+pub fn save_corrupted_blob_call(p: &PathS, dir: ()) -> (r: Result<(), AnyErr>) { unimplemented!() }
 pub open spec fn opt_ge(a: Option<usize>, b: Option<usize>) -> bool {
     match (a, b) { (_, None) => true, (Some(x), Some(y)) => x >= y, (None, Some(_)) => false }
 }
@@ -170,3 +170,52 @@ pub uninterp spec fn default_header_len() -> u64;
 #[verifier::external_body]
 pub fn default_header_size() -> (r: u64) ensures r == default_header_len(), 0 < r < 0x100 { unimplemented!() }
 pub const RECORD_MAGIC_BYTE: u64 = 0xacdc_bcde;
+
+// ---- quarantine of a damaged blob: file-system effects as a ghost sequence (C06 / C07) ----
+// std::path::Path / PathBuf / OsString by value; the path algebra is uninterpreted
+#[verifier::external_body]
+pub struct PathV { _p: u8 }
+#[verifier::external_body]
+pub struct OsName { _p: u8 }
+pub enum FsOp { CreateDir(PathV), Rename(PathV, PathV), RemoveFile(PathV) }
+#[verifier::external_body]
+pub struct Fs { _p: u8 }
+impl Fs { pub uninterp spec fn ops(&self) -> Seq<FsOp>; }
+impl PathV {
+    pub uninterp spec fn parent_sp(&self) -> Option<PathV>;
+    pub uninterp spec fn file_name_sp(&self) -> Option<OsName>;
+    pub uninterp spec fn join_str_sp(&self, s: Seq<char>) -> PathV;
+    pub uninterp spec fn join_sp(&self, n: OsName) -> PathV;
+    // the path with the INDEX-file extension
+    pub uninterp spec fn with_index_ext_sp(&self) -> PathV;
+    #[verifier::external_body]
+    pub fn parent(&self) -> (r: Option<PathV>) ensures r == self.parent_sp() { unimplemented!() }
+    #[verifier::external_body]
+    pub fn file_name(&self) -> (r: Option<OsName>) ensures r == self.file_name_sp() { unimplemented!() }
+    #[verifier::external_body]
+    pub fn join_str(&self, s: &str) -> (r: PathV) ensures r == self.join_str_sp(s@) { unimplemented!() }
+    #[verifier::external_body]
+    pub fn join(&self, n: OsName) -> (r: PathV) ensures r == self.join_sp(n) { unimplemented!() }
+    // `path.with_extension(blob::BLOB_INDEX_FILE_EXTENSION)`
+    #[verifier::external_body]
+    pub fn with_index_extension(&self) -> (r: PathV) ensures r == self.with_index_ext_sp() { unimplemented!() }
+    // Path::exists: any answer (the directory is whatever it is)
+    #[verifier::external_body]
+    pub fn exists(&self) -> (r: bool) { unimplemented!() }
+}
+impl OsName {
+    #[verifier::external_body]
+    pub fn to_os_string(self) -> (r: OsName) ensures r == self { unimplemented!() }
+}
+// tokio::fs::{create_dir, rename, remove_file}: a successful call is ONE effect; a failed one has none
+#[verifier::external_body]
+pub fn fs_create_dir(fs: &mut Fs, p: PathV) -> (r: Result<(), AnyErr>)
+    ensures r.is_ok() ==> final(fs).ops() == old(fs).ops().push(FsOp::CreateDir(p)), r.is_err() ==> final(fs).ops() == old(fs).ops() { unimplemented!() }
+#[verifier::external_body]
+pub fn fs_rename(fs: &mut Fs, from: &PathV, to: &PathV) -> (r: Result<(), AnyErr>)
+    ensures r.is_ok() ==> final(fs).ops() == old(fs).ops().push(FsOp::Rename(*from, *to)), r.is_err() ==> final(fs).ops() == old(fs).ops() { unimplemented!() }
+#[verifier::external_body]
+pub fn fs_remove_file(fs: &mut Fs, p: &PathV) -> (r: Result<(), AnyErr>)
+    ensures r.is_ok() ==> final(fs).ops() == old(fs).ops().push(FsOp::RemoveFile(*p)), r.is_err() ==> final(fs).ops() == old(fs).ops() { unimplemented!() }
+#[verifier::external_body]
+pub fn other_error() -> (r: AnyErr) ensures r is Other { unimplemented!() }
